@@ -24,7 +24,7 @@
 #include <unistd.h>
 #include "vgomp.h"
 
-enum { S_NEW, S_RUNNING, S_READY_ACTIVE, S_READY_IDLE, S_WAIT_CHILDREN, S_WAIT_TEAM, S_WAIT_LOCK, S_DONE };
+enum { S_NEW, S_RUNNING, S_READY_ACTIVE, S_READY_IDLE, S_WAIT_CHILDREN, S_WAIT_TEAM, S_WAIT_BARRIER, S_WAIT_LOCK, S_DONE };
 
 struct vg_team;
 struct vg_strand;
@@ -74,6 +74,7 @@ struct vg_strand {
         int depth;                      /* number of entries in teams[] */
         int counted;                    /* holds a thread of teams[depth-1] */
         int lock_wanted;
+        struct vg_team* wait_team;      /* team whose end-of-region barrier it waits in (S_WAIT_TEAM) */
 };
 
 static struct vg_config CFG;
@@ -90,10 +91,12 @@ static struct vg_worker g_mainw;
 static struct vg_task g_roottask;
 static long g_points = 0, g_steps = 0;
 static int g_live = 0, g_maxlive = 0;
+static int g_explicit_outstanding = 0;
 static int g_lock_owner[4] = {-1,-1,-1,-1};   /* 0: default critical, 1: atomic */
 static __thread struct vg_strand* self = NULL;
 
 static int g_mainw_init = 0;
+static int g_trace = 0;
 
 /* in a forked child the pooled worker threads do not exist */
 static void vg_forget_pool(void)
@@ -255,9 +258,28 @@ static void vg_point(int kind)
                 ids[n++] = me->id;
                 cur_enabled = 1;
         }
-        for(i = 0; i < g_nstrands; i++){
-                if(g_strands[i] != me && is_enabled(g_strands[i])){
-                        ids[n++] = i;
+        {
+                /* Lazy strands: a not-yet-started implicit task of a team whose `single` has already been
+                   claimed will (in a parallel+single region) only find the single taken and end.  It is
+                   offered only when nothing else is enabled; this restricts the schedules explored (a
+                   subset of the legal ones), it never adds one.  Teams without a claimed single (the
+                   static loop) are not affected. */
+                int nlazy = 0;
+                int* lazy = alloca(sizeof(int) * (g_nstrands + 1));
+                for(i = 0; i < g_nstrands; i++){
+                        struct vg_strand* s = g_strands[i];
+                        if(s != me && is_enabled(s)){
+                                if(CFG.lazy_idle && s->state == S_NEW && s->root && s->root->implicit_index > 0 && s->root->team->single_claimed > 0){
+                                        lazy[nlazy++] = i;
+                                }else{
+                                        ids[n++] = i;
+                                }
+                        }
+                }
+                if(n == 0){
+                        for(i = 0; i < nlazy; i++){
+                                ids[n++] = lazy[i];
+                        }
                 }
         }
         if(n == 0){
@@ -269,6 +291,16 @@ static void vg_point(int kind)
                 c = CFG.choose(CFG.ctx, n, ids, cur_enabled, kind);
                 if(c < 0 || c >= n){
                         die("chooser returned an out-of-range choice");
+                }
+        }
+        if(g_trace){
+                char tb[512];
+                int o = snprintf(tb, sizeof tb, "vg: step %ld kind %d self %d n %d choice %d:", g_steps, kind, me->id, n, c);
+                for(i = 0; i < n && o < 480; i++){
+                        o += snprintf(tb + o, sizeof tb - o, " %d(s%d)", ids[i], g_strands[ids[i]]->state);
+                }
+                tb[o++] = '\n';
+                if(write(2, tb, o) < 0){
                 }
         }
         nx = g_strands[ids[c]];
@@ -315,7 +347,7 @@ static void finish_task_accounting(struct vg_task* t)
 static void team_member_finished(struct vg_team* team)
 {
         team->unfinished--;
-        if(team->unfinished == 0 && team->master && team->master->state == S_WAIT_TEAM){
+        if(team->unfinished == 0 && team->master && team->master->state == S_WAIT_TEAM && team->master->wait_team == team){
                 team->master->state = S_READY_IDLE;
         }
 }
@@ -338,6 +370,7 @@ static void* worker_main(void* arg)
                 t->fn(t->data);
                 /* strand finished */
                 if(t->implicit_index < 0){
+                        g_explicit_outstanding--;
                         finish_task_accounting(t);
                         if(t->argbuf){
                                 free(t->argbuf);
@@ -366,12 +399,14 @@ static void* worker_main(void* arg)
 void vg_begin(const struct vg_config* cfg)
 {
         CFG = *cfg;
+        g_trace = getenv("VG_TRACE") != NULL;
         g_on = 1;
         g_points = 0;
         g_steps = 0;
         g_live = 1;
         g_maxlive = 1;
         g_ntasks = 0;
+        g_explicit_outstanding = 0;
         g_lock_owner[0] = g_lock_owner[1] = g_lock_owner[2] = g_lock_owner[3] = -1;
         memset(&g_roottask, 0, sizeof(g_roottask));
         g_roottask.implicit_index = 0;
@@ -445,6 +480,24 @@ long vg_points(void) { return g_points; }
 long vg_steps(void) { return g_steps; }
 int vg_max_live(void) { return g_maxlive; }
 int vg_num_strands(void) { return g_nstrands; }
+int vg_explicit_outstanding(void) { return g_explicit_outstanding; }
+
+/* deferred explicit tasks, other than the running one, that are waiting to start or are mid-body
+   (i.e. could be interleaved with the running strand) */
+int vg_other_runnable_explicit(void)
+{
+        int i, n = 0;
+        for(i = 0; i < g_nstrands; i++){
+                struct vg_strand* s = g_strands[i];
+                if(s == self || !s->root || s->root->implicit_index >= 0){
+                        continue;
+                }
+                if(s->state == S_NEW || s->state == S_READY_ACTIVE || s->state == S_READY_IDLE || s->state == S_WAIT_LOCK){
+                        n++;
+                }
+        }
+        return n;
+}
 
 /* ------------------------------------------------------------------ the libgomp ABI (gcc 12) */
 
@@ -542,7 +595,9 @@ void GOMP_parallel(void (*fn)(void*), void* data, unsigned num_threads, unsigned
         /* implicit barrier at the end of the region: all tasks of the team complete */
         if(team->unfinished > 0){
                 me->state = S_WAIT_TEAM;
+                me->wait_team = team;
                 vg_point(VG_KIND_BLOCK);
+                me->wait_team = NULL;
         }
         /* leave the team; the master still holds its thread of the outer team */
         me->depth--;
@@ -628,6 +683,7 @@ void GOMP_task(void (*fn)(void*), void* data, void (*cpyfn)(void*, void*), long 
         }
         me->cur->children_outstanding++;
         team->unfinished++;
+        g_explicit_outstanding++;
         new_strand(t, team);
         vg_point(VG_KIND_TSP);
 }
@@ -669,18 +725,15 @@ void GOMP_barrier(void)
                 team->barrier_arrived = 0;
                 team->barrier_gen++;
                 for(i = 0; i < g_nstrands; i++){
-                        if(g_strands[i]->state == S_WAIT_TEAM && top_team(g_strands[i]) == team && g_strands[i] != team->master){
+                        if(g_strands[i]->state == S_WAIT_BARRIER && top_team(g_strands[i]) == team){
                                 g_strands[i]->state = S_READY_IDLE;
                         }
-                }
-                if(team->master->state == S_WAIT_TEAM && team->master != me && team->unfinished > 0){
-                        team->master->state = S_READY_IDLE;
                 }
                 vg_point(VG_KIND_TSP);
                 return;
         }
         while(team->barrier_gen == gen){
-                me->state = S_WAIT_TEAM;
+                me->state = S_WAIT_BARRIER;
                 vg_point(VG_KIND_BLOCK);
         }
 }
